@@ -101,8 +101,10 @@ func openEnvIn(keep string, cfg int, schema schemaSpec, maxSize int) (*shardEnv,
 		e.reopen = true
 	case 4:
 		e.cm = cache.NewManager(-1)
+	case 5: // in-memory backend, caching disabled: every read decodes from the store
+		e.cm = cache.NewManager(0)
 	}
-	if cfg != 4 {
+	if !isMemCfg(cfg) {
 		e.path = filepath.Join(dir, "sharddb.bbolt")
 	}
 	e.sh, err = shard.NewShard(e.path, e.col, e.cm)
@@ -199,10 +201,13 @@ func readAll(sh *shard.Shard, pool []uuid.UUID) (string, map[uuid.UUID]Val, erro
 	return pList(items), docs, nil
 }
 
+// isMemCfg: configurations on the in-memory backend (no file, no transactions).
+func isMemCfg(cfg int) bool { return cfg == 4 || cfg == 5 }
+
 func runShardChild(a childArgs) error {
 	g := newGen(a.profile, a.seed, a.idx)
-	g.noRej = a.cfg == 4
-	if a.profile == "c01" && a.idx%5 == 3 && a.cfg != 4 {
+	g.noRej = isMemCfg(a.cfg)
+	if a.profile == "c01" && a.idx%5 == 3 && !isMemCfg(a.cfg) {
 		g.maxSize = 300 + g.r.IntN(300)
 	}
 	f, err := os.Create(a.out)
@@ -278,7 +283,7 @@ func runShardChild(a childArgs) error {
 			emit("K\tnot-killed")
 			os.Exit(5)
 		}
-		if fs != nil && a.cfg != 4 && a.killStep < 0 {
+		if fs != nil && !isMemCfg(a.cfg) && a.killStep < 0 {
 			// fail the k-th failable storage operation of this batch, for every k until the batch runs through
 			if err := g.faultSweep(a, env, fs, b, step, emit); err == errSweepApplied {
 				continue
@@ -328,7 +333,7 @@ func runShardChild(a childArgs) error {
 		}
 		lower := g.lowerTable(docs, reqs)
 		extras = append(extras, g.extraObs(env, docs, reqs)...)
-		if (a.profile == "c08" || a.profile == "c03") && a.cfg != 4 && len(reqs) > 0 {
+		if (a.profile == "c08" || a.profile == "c03") && !isMemCfg(a.cfg) && len(reqs) > 0 {
 			// the same requests answered by a fresh instance (own cache manager) over a copy of the file
 			if x, err := coldAnswers(env, reqs); err == nil {
 				extras = append(extras, x)
@@ -708,6 +713,10 @@ func (g *genState) faultSweep(a childArgs, env *shardEnv, fs *faultStore, b batc
 		if k <= 24 || k%4 == 0 || k == nops || a.steps < 0 {
 			ks = append(ks, k)
 		}
+	}
+	if nops > 2000 {
+		// an oversized request: a handful of positions spread over the whole batch
+		ks = []int64{1, 2, nops / 4, nops / 2, nops/2 + 1, 3 * nops / 4, nops - 1, nops}
 	}
 	for _, k := range ks {
 		plan := &faultPlan{failAt: k}
